@@ -16,7 +16,9 @@
 (*   issued : set of tokens ever returned by a create of this world        *)
 (*   cap    : capacity per archetype (sequence, index a+1)                 *)
 (*   rm     : number of removals per archetype                             *)
-(*   dirs   : direct-handle records [d, t, a, born] (born = rm at minting) *)
+(*   dirs   : direct-handle records [d, t, a, born, src] (born = rm at      *)
+(*            minting; src = where it was minted: mint-all, to_direct,     *)
+(*            a closure parameter, a closure parameter of ecs_iter_destroy!)*)
 (*   deadD  : direct-handle tokens that have died (a removal happened     *)
 (*            after they were issued); must never be current again        *)
 (*   evc,evd: pending created / destroyed events per archetype (sets)      *)
@@ -197,7 +199,7 @@ ArchObsViol(w, wid, x, keep, at) ==
     \cup (IF "dump" \in DOMAIN x THEN RepViol(w, wid, a, x, at) ELSE {})
 
 \* direct-handle records minted by the mint-all of this observation
-MintRecs(w, x) == {[d |-> x.mint[i][2][2], t |-> x.mint[i][1], a |-> x.a, born |-> w.rm[x.a + 1]] :
+MintRecs(w, x) == {[d |-> x.mint[i][2][2], t |-> x.mint[i][1], a |-> x.a, born |-> w.rm[x.a + 1], src |-> "mint"] :
                       i \in {j \in DOMAIN x.mint : x.mint[j][2][1] = "d"}}
 
 \* C09: a token minted for two different live entities at the same time
@@ -247,7 +249,9 @@ DirProbeViol(w, pr, at) ==
         known == KnownDir(w, k)
     IN UNION {
          IF valid THEN If(\E t \in tg : ~GoodFor(w, g[1], t) /\ ~(g[1][1] = "d" /\ g[1][2] = k),
-                          {V(LiveTags(w, g[1], CHOOSE t \in tg : TRUE, <<"C09">>), at, "current direct handle is refused or designates another entity")})
+                          {V(LiveTags(w, g[1], CHOOSE t \in tg : TRUE,
+                                      IF \E r \in ValidDirs(w, k) : r.src = "iterd" THEN <<"C09", "C07">> ELSE <<"C09">>),
+                             at, "current direct handle is refused or designates another entity")})
          ELSE IF known THEN If(g[1][1] # "n" /\ ~(\E r \in w.dirs : r.d = k /\ w.awrapped[r.a + 1]),
                                {V(<<"C09">>, at, "direct handle accepted after a removal from its archetype")})
          ELSE If(g[1][1] \notin {"n", "p"}, {V(<<"C03">>, at, "lookup accepts a foreign direct handle")})
@@ -295,7 +299,18 @@ WorldEventViol(w, o, at) ==
 (* Observation of one world: per-archetype checks, mint-all, probes.       *)
 (* Returns the world with cap / aver / dirs brought up to date.            *)
 (***************************************************************************)
+\* light observation (long histories): len()/capacity()/is_empty() only
+ObserveLight(w, o, keep, at) ==
+    [w |-> [w EXCEPT !.cap = [i \in 1..NA |-> o.ar[i].cap]], pc |-> <<0, 0, 0, 0, 0, 0>>,
+     v |-> UNION {LET x == o.ar[i]  n == LenOf(w, x.a) IN
+                     If(x.len # n, {V(<<"C12">>, at, "len() differs from the number of live entities")})
+                \cup If(x.emp # (n = 0), {V(<<"C12">>, at, "is_empty() disagrees with the live entities")})
+                \cup If(x.cap < x.len \/ x.cap < w.cap[x.a + 1], {V(<<"C12">>, at, "capacity() below len() or decreased")})
+                \cup If(x.a \in keep /\ x.cap # w.cap[x.a + 1], {V(<<"C12">>, at, "capacity() changed although there was room")})
+                  : i \in DOMAIN o.ar}]
+
 ObserveWorld(w, o, keep, at) ==
+    IF "light" \in DOMAIN o THEN ObserveLight(w, o, keep, at) ELSE
     LET archViol == UNION {ArchObsViol(w, o.w, o.ar[i], keep, at) : i \in DOMAIN o.ar}
         minted   == UNION {MintRecs(w, o.ar[i]) : i \in DOMAIN o.ar}
         w1 == [w EXCEPT !.dirs = @ \cup minted,
@@ -340,7 +355,8 @@ VisitStep(w, q, v, visited, setp, destroyAllowed, at) ==
         rwCols == IF okArch THEN {bidx[i] : i \in (NumRo(params) + 1)..Len(bseq)} ELSE {}
         hasD   == "d" \in DOMAIN v
         w1 == IF hasD /\ okTok
-              THEN [w EXCEPT !.dirs = @ \cup {[d |-> v.d, t |-> t, a |-> a, born |-> w.rm[a + 1]]}] ELSE w
+              THEN [w EXCEPT !.dirs = @ \cup {[d |-> v.d, t |-> t, a |-> a, born |-> w.rm[a + 1],
+                                                 src |-> IF destroyAllowed THEN "iterd" ELSE "visit"]}] ELSE w
         w2 == IF okTok /\ setp # <<>> /\ rwCols # {}
               THEN [w1 EXCEPT !.alive[t].vals = SetVals(@, rwCols, setp[1])] ELSE w1
         destroys == v.dec \in {"cd", "bd"}
